@@ -95,6 +95,8 @@ type Path struct {
 	dirty     bool // wrote to worker-shared (init-time) memory
 
 	models  []*cachedModel
+	known   map[int]bool  // term id -> truth value implied syntactically by the path condition
+	KnownHits int
 	varsOf  map[int][]int // term id -> sorted variable ids
 	Sliced  int
 	CacheHits int
@@ -133,6 +135,35 @@ func (p *Path) assume(c *smt.Term) {
 		return
 	}
 	p.S.Assert(c)
+	p.learn(c, true)
+}
+
+// learn records the truth value of c (and of its syntactic parts) on this path.
+func (p *Path) learn(c *smt.Term, val bool) {
+	if p.known == nil {
+		p.known = map[int]bool{}
+	}
+	p.known[c.ID] = val
+	p.known[p.C.Not(c).ID] = !val
+	switch c.Op {
+	case smt.ONot:
+		p.known[c.Args[0].ID] = !val
+		if c.Args[0].Op == smt.OOr && val {
+			// ¬(x ∨ y): both false
+			p.learn(c.Args[0].Args[0], false)
+			p.learn(c.Args[0].Args[1], false)
+		}
+	case smt.OAnd:
+		if val {
+			p.learn(c.Args[0], true)
+			p.learn(c.Args[1], true)
+		}
+	case smt.OOr:
+		if !val {
+			p.learn(c.Args[0], false)
+			p.learn(c.Args[1], false)
+		}
+	}
 }
 
 // choose picks one of len(conds) alternatives; conds[i] == nil means the
@@ -416,6 +447,13 @@ func (p *Path) pcSlice(cond *smt.Term) []*smt.Term {
 // cached models first, then an independence-sliced solver query.
 func (p *Path) feasible(cond *smt.Term) smt.Result {
 	if v, ok := cond.BoolVal(); ok {
+		if v {
+			return smt.Sat
+		}
+		return smt.Unsat
+	}
+	if v, ok := p.known[cond.ID]; ok {
+		p.KnownHits++
 		if v {
 			return smt.Sat
 		}
